@@ -23,6 +23,8 @@ struct OutDec {
 	void feed(const char *p, size_t n, std::vector<Frame> &out);
 };
 
+struct C19;
+
 struct C10State {
 	std::deque<std::string> frames; size_t base = 0, generated = 0;   // frames[k] is generated frame number base+k
 	std::vector<std::pair<size_t, size_t>> states{{0, 0}};            // NFA: (frame index, offset); offset 0 = at the boundary before that frame
@@ -40,7 +42,7 @@ struct Client {
 	// from the daemon
 	std::string out; int64_t space = -1; size_t wcap = 0; bool blocked = false; int wr_err = 0; bool wr_fail_after_close = false;
 	uint64_t write_attempts_turn = 0;
-	InDec in; OutDec od; C10State c10;
+	InDec in; OutDec od; C10State c10; C19 *c19 = nullptr;
 	// oracle state
 	std::deque<Exp> expq; bool faulty = false; bool closing = false; bool no_expect = false;
 	bool hs_sent = false, hs_ok = false;
@@ -148,6 +150,10 @@ struct World : KernelHooks, ModelHost {
 	void c10_accept(Client &cl, const char *p, size_t n);
 	void c10_quiescent();
 	void c10_turn_end();
+	void c19_on_handshake_response(Client &cl, const Frame &f);
+	void c19_send(Client &cl, const Op &op);
+	void c19_on_frame(Client &cl, const Frame &f);
+	void c19_quiescent();
 	int classify_ws(Client &cl, const WsInFrame &wf);
 	bool wsstrict = false;
 	int last_fed_client = -1; int presumed_drop = -1; std::string presumed_prop, presumed_rule, presumed_detail;
